@@ -248,6 +248,10 @@ def run_one(ch, cfg):
         elif behaviour == "half-close":
             c.send(line)             # no newline, then FIN
             c.half_close()
+        elif behaviour == "trailing-bytes":
+            # more bytes after the request line (a second line the server must not answer)
+            c.send(payload + ch.pick([b'{"command":"version"}\n', b"\x00\xff garbage", b"\n\n"],
+                                     "trailing"))
         else:
             c.send(payload)
         if behaviour == "reset":
@@ -261,7 +265,8 @@ def run_one(ch, cfg):
             line, kind = gen_line(ch, cfg, v1)
             kinds.append(kind)
             behaviour = ch.weighted([(6, "plain"), (2, "fragments"), (1, "half-close"),
-                                     (1, "reset"), (1, "pair")], "client.behaviour")
+                                     (1, "reset"), (1, "pair"), (1, "trailing-bytes")],
+                                    "client.behaviour")
             behaviours.add(behaviour)
             entry = {"line": line[:200].decode("latin-1") + ("...(%d bytes)" % len(line)
                                                             if len(line) > 200 else ""),
